@@ -936,7 +936,17 @@ impl<K: SimKey> World<K> {
         if let Some(n) = wrong_n {
             cfg.n = n;
         }
-        if let Some(v) = wrong_version {
+        let torn = wrong_version == Some(TORN_SETTINGS);
+        if torn {
+            // the settings file cut short (to nothing, to half, by 4 bytes) and an open with another
+            // segment size: a file that does not parse is not "no settings yet" - the open must be
+            // rejected and must leave everything as it is (seeded change C19-e)
+            let b = saved.clone().unwrap_or_default();
+            let cut = [0, b.len() / 2, b.len().saturating_sub(4)][i % 3];
+            interpose::bypass(|| std::fs::write(&settings_path, &b[..cut])).unwrap();
+            with_sim(|s| s.disk = crate::sim::Disk::from_dir(&self.base).unwrap());
+            cfg.n += 1;
+        } else if let Some(v) = wrong_version {
             // forge the stored version (F-forge at rest, outside the simulated call stream)
             let txt = String::from_utf8(saved.clone().unwrap_or_default()).unwrap_or_default();
             let mut val: serde_json::Value = serde_json::from_str(&txt).map_err(|e| fail(&["C19"], "settings-unreadable", i, format!("db_settings.json is not JSON: {e}")))?;
@@ -953,6 +963,7 @@ impl<K: SimKey> World<K> {
             Ok(r) => r,
         };
         let kind_ok = match (&res, wrong_n, wrong_version) {
+            (Err(LibError::Settings(_)), _, _) if torn => true,
             (Err(LibError::Settings(e)), Some(_), _) => format!("{e:?}").contains("ValidationFailed"),
             (Err(LibError::Settings(e)), _, Some(_)) => format!("{e:?}").contains("UnsupportedVersion"),
             _ => false,
@@ -1002,6 +1013,9 @@ impl<K: SimKey> World<K> {
 }
 
 use crate::sim::Sim;
+
+/// `Op::ReopenWrongVersion { v: TORN_SETTINGS }` = the settings file cut short instead of a forged version
+pub const TORN_SETTINGS: u64 = 0xffff_fffe;
 
 pub fn disk_image(d: &crate::sim::Disk) -> BTreeMap<String, (usize, [u8; 32])> {
     let mut m: BTreeMap<String, (usize, [u8; 32])> =
